@@ -20,6 +20,8 @@ import (
 	"github.com/rs/zerolog"
 	pb "github.com/wealdtech/eth2-signer-api/pb/v1"
 	"google.golang.org/grpc"
+	"google.golang.org/grpc/codes"
+	"google.golang.org/grpc/status"
 	"google.golang.org/grpc/encoding"
 	"google.golang.org/protobuf/proto"
 	"google.golang.org/protobuf/types/known/emptypb"
@@ -44,6 +46,25 @@ func hBytes(r *rand.Rand, normal int) []byte {
 		}
 	}
 	return randBytes(r, normal)
+}
+
+// hText returns text-shaped hostile bytes for fields that are treated as text somewhere down the stack
+// (passphrases are Unicode-normalised by the keystore encryptor): fragments of valid and broken UTF-8, combining
+// marks in rising and falling class order, Hangul, characters with multi-segment decompositions.
+func hText(r *rand.Rand) []byte {
+	switch r.Intn(6) {
+	case 0:
+		return hBytes(r, 4)
+	case 1:
+		return []byte("pass")
+	}
+	frags := [][]byte{{0xf2}, {0xf0, 0x9f}, {0xe0}, {0xe2, 0x82}, {0xc3}, {0x80}, {0xff}, {0x00}, {0x7f}, []byte("a"), []byte("ü"), []byte("\u0360"), []byte("\u0320"), []byte("\u0300"),
+		[]byte("\u0345"), []byte("\u0316"), []byte("\uAC00"), []byte("\u1161"), []byte("\u0F73"), []byte("\u0F75"), []byte("\u0F81"), []byte("\u1E9B\u0323"), []byte("\uFDFA"), []byte("\u2126")}
+	var out []byte
+	for n := 1 + r.Intn(12); n > 0; n-- {
+		out = append(out, frags[r.Intn(len(frags))]...)
+	}
+	return out
 }
 
 func hNum(r *rand.Rand) uint64 {
@@ -199,11 +220,11 @@ func (g *c20Gen) message(method string) proto.Message {
 		}
 		return q
 	case "/v1.AccountManager/Unlock":
-		return &pb.UnlockAccountRequest{Account: g.name(), Passphrase: hBytes(r, 4)}
+		return &pb.UnlockAccountRequest{Account: g.name(), Passphrase: hText(r)}
 	case "/v1.AccountManager/Lock":
 		return &pb.LockAccountRequest{Account: g.name()}
 	case "/v1.AccountManager/Generate":
-		q := &pb.GenerateRequest{Account: g.name(), Passphrase: hBytes(r, 4), Participants: hNum32(r), SigningThreshold: hNum32(r)}
+		q := &pb.GenerateRequest{Account: g.name(), Passphrase: hText(r), Participants: hNum32(r), SigningThreshold: hNum32(r)}
 		if r.Intn(3) == 0 {
 			q.SigningThreshold = q.Participants
 		}
@@ -213,11 +234,11 @@ func (g *c20Gen) message(method string) proto.Message {
 		}
 		return q
 	case "/v1.WalletManager/Unlock":
-		return &pb.UnlockWalletRequest{Wallet: g.name(), Passphrase: hBytes(r, 4)}
+		return &pb.UnlockWalletRequest{Wallet: g.name(), Passphrase: hText(r)}
 	case "/v1.WalletManager/Lock":
 		return &pb.LockWalletRequest{Wallet: g.name()}
 	case "/v1.DKG/Prepare":
-		q := &pb.PrepareRequest{Account: g.name(), Passphrase: hBytes(r, 4), Threshold: hNum32(r)}
+		q := &pb.PrepareRequest{Account: g.name(), Passphrase: hText(r), Threshold: hNum32(r)}
 		for i, n := 0, []int{0, 1, 3, 100}[r.Intn(4)]; i < n; i++ {
 			q.Participants = append(q.Participants, &pb.Endpoint{Id: hNum(r), Name: "x", Port: hNum32(r)})
 		}
@@ -492,6 +513,9 @@ func c20Child(cfg Cfg) int {
 	if err != nil {
 		return 3
 	}
+	il := &inputLog{f: lf}
+	pf, _ := os.OpenFile(filepath.Join(cfg.Work, "panics.log"), os.O_CREATE|os.O_WRONLY|os.O_APPEND, 0o644)
+	panicsLogged := 0
 	g := c20NewGen(cfg.Rand("c20-" + strings.Join(cfg.Args, "-")))
 	ctx := rig.HandlerCtx("client1", "10.0.0.1")
 	counts := map[string]int{}
@@ -524,13 +548,26 @@ func c20Child(cfg Cfg) int {
 		if raw == nil {
 			continue
 		}
-		_, _ = lf.Write([]byte(fmt.Sprintf("%d %s %s\n", i, method, hex.EncodeToString(raw))))
+		il.add(fmt.Sprintf("%d %s %s\n", i, method, hex.EncodeToString(raw)))
 		type dres struct {
 			outcome string
 			err     error
 		}
 		ch := make(chan dres, 1)
 		go func() {
+			// A panic in the goroutine that runs the handler is what the server's interceptor chain would see:
+			// whether the daemon survives it is decided by replaying the input against the real daemon (driver 2).
+			// A panic in any other goroutine still ends this process and is reported as a crash.
+			defer func() {
+				if p := recover(); p != nil {
+					fmt.Printf("CHILD-PANIC %d %s %s\n", i, method, strings.SplitN(fmt.Sprint(p), "\n", 2)[0])
+					if pf != nil && panicsLogged < 200 {
+						panicsLogged++
+						_, _ = pf.Write([]byte(fmt.Sprintf("%d %s %s\n", i, method, hex.EncodeToString(raw))))
+					}
+					ch <- dres{"handler-panic", nil}
+				}
+			}()
 			o, e := c20Dispatch(st, ctx, method, raw)
 			ch <- dres{o, e}
 		}()
@@ -551,11 +588,21 @@ func c20Child(cfg Cfg) int {
 		}
 	}
 	// Concurrent phase: the last requests before a death are whatever the workers were doing.
-	_, _ = lf.Write([]byte("concurrent-mix phase: listings and signing by key while accounts are created, locked and unlocked\n"))
+	il.add("concurrent-mix phase: listings and signing by key while accounts are created, locked and unlocked\n")
 	ops, answered := c20ConcurrentMix(3, cfg.Seed+int64(len(cfg.Args[0])), func(method string, msg proto.Message) bool {
 		raw, _ := proto.Marshal(msg)
 		ch := make(chan struct{}, 1)
-		go func() { _, _ = c20Dispatch(st, ctx, method, raw); ch <- struct{}{} }()
+		go func() {
+			defer func() {
+				if p := recover(); p != nil {
+					// Decided by the concurrent phase against the real daemon (driver 2), see above.
+					fmt.Printf("CHILD-PANIC concurrent %s %s\n", method, strings.SplitN(fmt.Sprint(p), "\n", 2)[0])
+					ch <- struct{}{}
+				}
+			}()
+			_, _ = c20Dispatch(st, ctx, method, raw)
+			ch <- struct{}{}
+		}()
 		select {
 		case <-ch:
 			return true
@@ -575,6 +622,25 @@ func c20Child(cfg Cfg) int {
 	fmt.Printf("STAT inputs %d\n", total)
 	fmt.Printf("STAT completed 1\n")
 	return 0
+}
+
+// inputLog records every input before it runs; only the last one matters for attribution, so the file starts
+// over when it grows beyond 256 MiB (long runs wrote gigabytes).
+type inputLog struct {
+	f *os.File
+	n int64
+}
+
+func (l *inputLog) add(line string) {
+	if l.f == nil {
+		return
+	}
+	if l.n > 256<<20 {
+		_ = l.f.Truncate(0)
+		l.n = 0
+	}
+	m, _ := l.f.Write([]byte(line))
+	l.n += int64(m)
 }
 
 // rawCodec passes bytes through gRPC untouched so that arbitrary encodings can be sent.
@@ -620,6 +686,8 @@ func C20(cfg Cfg) int {
 		bin = "/verif/.bin/vh"
 	}
 	t0 := time.Now()
+	// Inputs on which a handler panicked in-process; the real daemon decides whether that is a crash.
+	var candidates [][2]string
 	batches := cfg.N(4, 24)
 	per := cfg.N(2500, 20000)
 	for b := 0; b < batches && run.NumViolations() < 3; b++ {
@@ -630,6 +698,14 @@ func C20(cfg Cfg) int {
 		}
 		res := runChild(cfg, bin, "C20child", dir, 15*time.Minute, nil, fmt.Sprint(per), mode, fmt.Sprint(b))
 		n := absorbChild(run, res, "inproc_", "")
+		if data, err := os.ReadFile(filepath.Join(dir, "panics.log")); err == nil {
+			for _, l := range strings.Split(string(data), "\n") {
+				if fs := strings.SplitN(l, " ", 3); len(fs) == 3 && len(candidates) < 400 {
+					candidates = append(candidates, [2]string{fs[1], fs[2]})
+				}
+			}
+		}
+		run.Count("inproc_handler_panics", strings.Count(res.Out, "CHILD-PANIC "))
 		if res.TimedOut {
 			what, hexIn := lastInput(filepath.Join(dir, "inputs.log"))
 			run.Violate("the instance stopped answering (watchdog) at input "+what, map[string]any{"input": what, "hex": hexIn, "output": tail(res.Out, 3000)})
@@ -650,7 +726,7 @@ func C20(cfg Cfg) int {
 	run.Eval(run.Get("inproc_inputs"))
 	run.Set("inproc_wall_s", time.Since(t0).Seconds())
 	t1 := time.Now()
-	c20Wire(run, cfg)
+	c20Wire(run, cfg, candidates)
 	run.Set("wire_wall_s", time.Since(t1).Seconds())
 	raceChild(run, cfg, "C20race")
 	if run.Get("inproc_inputs") == 0 || run.Get("wire_inputs") == 0 {
@@ -669,7 +745,7 @@ func firstPanicLine(out string) string {
 }
 
 // c20Wire sends raw hostile bytes to the real daemon.
-func c20Wire(run *evid.Run, cfg Cfg) {
+func c20Wire(run *evid.Run, cfg Cfg, candidates [][2]string) {
 	ca, err := rig.NewCA("verif-ca")
 	if err != nil {
 		run.Inconclusive(err.Error())
@@ -702,12 +778,51 @@ func c20Wire(run *evid.Run, cfg Cfg) {
 	total := cfg.N(1500, 40000)
 	signer, lister := pb.NewSignerClient(conn), pb.NewListerClient(conn)
 	lf, _ := os.OpenFile(filepath.Join(dir, "inputs.log"), os.O_CREATE|os.O_WRONLY|os.O_APPEND, 0o644)
+	il := &inputLog{f: lf}
+	// Known-nasty inputs first (regression seeds of earlier findings), then the in-process panic candidates, then
+	// the generated stream.
+	type pre struct{ method, hexIn, origin string }
+	var pres []pre
+	for _, sd := range c20RegressionSeeds() {
+		pres = append(pres, pre{sd[0], sd[1], "regression seed"})
+	}
+	for _, c := range candidates {
+		pres = append(pres, pre{c[0], c[1], "input on which the handler panicked in-process"})
+	}
+	for k, pi := range pres {
+		raw, err := hex.DecodeString(pi.hexIn)
+		if err != nil {
+			continue
+		}
+		il.add(fmt.Sprintf("pre%d %s %s\n", k, pi.method, pi.hexIn))
+		var reply []byte
+		ctx, cancel := context.WithTimeout(context.Background(), 60*time.Second)
+		err = conn.Invoke(ctx, pi.method, &raw, &reply, grpc.ForceCodec(rawCodec{}), grpc.MaxCallRecvMsgSize(64<<20))
+		cancel()
+		run.Eval(1)
+		run.Count("wire_replayed_inputs", 1)
+		time.Sleep(30 * time.Millisecond)
+		if !d.Alive() {
+			run.Violate(fmt.Sprintf("the daemon died on %s (%s): %s", pi.method, pi.origin, firstPanicLine(d.LogTail(40000))),
+				map[string]any{"method": pi.method, "hex": pi.hexIn, "origin": pi.origin, "daemon_log_tail": d.LogTail(3000)})
+			return
+		}
+		outcome := "response"
+		if err != nil {
+			outcome = "error"
+			if status.Code(err) == codes.Internal {
+				// What the server's recovery interceptor answers after a handler panic.
+				run.Count("wire_replay_internal_errors", 1)
+			}
+		}
+		run.Distinct(fmt.Sprintf("wire replay (%s) %s %s", pi.origin, pi.method, outcome))
+	}
 	for i := 0; i < total; i++ {
 		method, raw := g.input()
 		if raw == nil {
 			continue
 		}
-		_, _ = lf.Write([]byte(fmt.Sprintf("%d %s %s\n", i, method, hex.EncodeToString(raw))))
+		il.add(fmt.Sprintf("%d %s %s\n", i, method, hex.EncodeToString(raw)))
 		var reply []byte
 		ctx, cancel := context.WithTimeout(context.Background(), 60*time.Second)
 		err := conn.Invoke(ctx, method, &raw, &reply, grpc.ForceCodec(rawCodec{}), grpc.MaxCallRecvMsgSize(64<<20))
@@ -765,4 +880,62 @@ func c20Wire(run *evid.Run, cfg Cfg) {
 		return
 	}
 	run.Sample(map[string]any{"method": "/v1.Signer/Sign", "example": "account=Wallet1/acct0 data(32 bytes) domain(3 bytes)"})
+}
+
+func init() {
+	// C20replay <file>: dispatches the logged inputs of a file ("<n> <method> <hex>" per line) one after the other
+	// to a fresh in-process instance; a crash ends the process with the Go runtime's panic report.
+	Children["C20replay"] = func(cfg Cfg) int {
+		if len(cfg.Args) == 0 {
+			return 3
+		}
+		data, err := os.ReadFile(cfg.Args[0])
+		if err != nil {
+			fmt.Println(err)
+			return 3
+		}
+		c, err := rig.NewCluster(rig.ClusterOpts{Dir: filepath.Join(cfg.Work, "cluster"), IDs: []uint64{1, 2}, NDWallets: c20Wallets})
+		if err != nil {
+			fmt.Println("cannot build cluster:", err)
+			return 3
+		}
+		ctx := rig.HandlerCtx("client1", "10.0.0.1")
+		for _, l := range strings.Split(string(data), "\n") {
+			fs := strings.SplitN(strings.TrimSpace(l), " ", 3)
+			if len(fs) != 3 {
+				continue
+			}
+			raw, err := hex.DecodeString(fs[2])
+			if err != nil {
+				continue
+			}
+			o, e := c20Dispatch(c.Inst[1].Stack, ctx, fs[1], raw)
+			fmt.Printf("input %s %s -> %s %v\n", fs[0], fs[1], o, e)
+		}
+		return 0
+	}
+}
+
+// c20RegressionSeeds are inputs that once crashed the daemon (see known_findings.json); they are replayed against
+// the real daemon in every run.
+func c20RegressionSeeds() [][2]string {
+	if os.Getenv("VERIF_SKIP_REGRESSION_SEEDS") != "" {
+		// Only for validating the harness itself on a tree that still has an old defect.
+		return nil
+	}
+	unlock := func(account string, pass []byte) string {
+		raw, _ := proto.Marshal(&pb.UnlockAccountRequest{Account: account, Passphrase: pass})
+		return hex.EncodeToString(raw)
+	}
+	wunlock := func(wallet string, pass []byte) string {
+		raw, _ := proto.Marshal(&pb.UnlockWalletRequest{Wallet: wallet, Passphrase: pass})
+		return hex.EncodeToString(raw)
+	}
+	nasty := []byte{0xf2, 0xcd, 0xa0, 0xcc, 0xa0} // truncated 4-byte lead followed by two combining marks of decreasing class
+	return [][2]string{
+		{"/v1.AccountManager/Lock", func() string { raw, _ := proto.Marshal(&pb.LockAccountRequest{Account: "Wallet1/acct0"}); return hex.EncodeToString(raw) }()},
+		{"/v1.AccountManager/Unlock", unlock("Wallet1/acct0", nasty)},
+		{"/v1.WalletManager/Unlock", wunlock("Wallet1", nasty)},
+		{"/v1.AccountManager/Unlock", unlock("Wallet1/acct0", []byte("pass"))},
+	}
 }
